@@ -110,7 +110,12 @@ pub fn markdown_doc(prose: &str, rng: &mut Rng) -> String {
             9 => format!("{fill} <span>{fill2}</span> {body}"),
             _ => body,
         };
-        let block = match rng.below(12) {
+        let block = match rng.below(15) {
+            // tabs after a container marker: pulldown-cmark pads a partially consumed tab with text
+            // that is not in the source
+            11 => format!("-\t\tcode {fill}\n\t\tmore {fill2}\n\n{inline}"),
+            12 => format!(">\t\tquoted {fill}\n\n{inline}"),
+            13 => format!("1.\t\t{fill} code\n\n- {inline}\n\n\t\tcode {fill2}"),
             0 => format!("# {fill} {inline}"),
             1 => format!("- {inline}\n- {fill}\n  - nested {fill2}"),
             2 => format!("> {inline}\n> {fill}"),
@@ -145,7 +150,7 @@ pub fn adversarial() -> Vec<String> {
         "i.e.".into(), "N.S.A.".into(), "e.g".into(), "A.".into(), "A.B".into(), "1st".into(), "1".into(),
         "1.".into(), "I have 4. You have 5.".into(), "an".into(), "a ".into(), "an ".into(), "“".into(),
         "He said \"an test\" today.".into(), "👍🏽".into(), "😀 teh 😀".into(), "e\u{301}".into(),
-        "\u{2028}".into(), "\u{0}".into(), "\u{feff}teh".into(), "*".into(), "**".into(), "[]()".into(),
+        "-\t\tT".into(), ">\t\tq".into(), "1.\t\tT\n".into(), "\u{2028}".into(), "\u{0}".into(), "\u{feff}teh".into(), "*".into(), "**".into(), "[]()".into(),
         "[a](".into(), "![".into(), "<".into(), "<p".into(), "<p>".into(), "</".into(), "&amp".into(),
         "```".into(), "~~~".into(), "|".into(), "| a |\n|--".into(), "- ".into(), "1. ".into(),
         "#!/bin/sh".into(), "//".into(), "/*".into(), "/**".into(), "*/".into(), "--".into(), "{-".into(),
